@@ -21,7 +21,14 @@ RULE = ("seeded P-code generator (UOD commands Short/Long/Long2/Other/Drive1 of 
         "second command of (a) possibly during) the user Stop/Restart: (a) 1-2 UOD commands started by the operator through execute_control_command_from_user "
         "(Long/Long2/Other/Drive1/Short, same-name and overlapping pairs included) at a random tick, (b) a force request "
         "(real handle_forceMsg) on a running method-issued UOD command; Stop and Restart at (up to 8 sampled) ticks of "
-        "the window in which that command is alive (+2). distinct = (method shape hash, kind, tick or insert position, "
+        "the window in which that command is alive (+2); plus the failing-line stratum: per method two variants with one "
+        "line that fails at run time (13 kinds: Simulate with an inconvertible / unknown unit, with a unit on a unit-less "
+        "or categorical tag, on an unknown tag, malformed; UOD command with unparsable arguments / whose exec raises; "
+        "engine and interpreter commands with bad arguments; unknown instruction; bad Watch/Alarm condition; undefined "
+        "macro) inserted at a seeded position, half of them preceded by a valid Simulate and/or a long-running command "
+        "and a third followed by a valid Simulate, on the rig UOD extended by a categorical tag; user Stop and user "
+        "Restart before every tick E-1..E+6 (E = tick of the error pause), and operator Unpause at a tick of E..E+4 "
+        "followed 0-3 ticks later by Stop / Restart. distinct = (method shape hash, kind, tick or insert position, "
         "operator script); non-trivial = a UOD instance was alive, the engine was paused/holding or a tag was simulated "
         "when the Stop/Restart began")
 ASSUMPTIONS = [
@@ -38,12 +45,28 @@ ASSUMPTIONS = [
     "the run-log clause is judged for them only if the run-stopped message does contain a line with their instance id "
     "(otherwise counted as operator_instances_not_in_final_runlog_unjudged); the instance-held, finalised and "
     "nothing-executes-after-Stop clauses apply to them like to any other UOD command",
+    "'tag simulations are cleared' is read on everything that reports a tag as simulated: the engine tag's flag, its "
+    "read-only TagValue (as_readonly) and the tag snapshot message built by the real "
+    "EngineMessageBuilder.create_tag_updates_snapshot_msg right after the Stopped tick; after a Stop also 3 ticks later; "
+    "after a Restart in each of the 4 following ticks every tag reported simulated must be the target of a Simulate "
+    "line that was started in the new run",
+    "a run that sits in the error pause caused by a failing method line is ended by Stop/Restart like any other run: "
+    "the property makes no exception for failed runs",
 ]
 REQUIRED = {"stops_completed": 300, "restarts_completed": 300, "stops_with_live_instance": 50, "final_runlog_uod_lines": 200,
             "stops_with_simulated_tag": 10, "stops_while_paused_or_holding": 20, "restart_first_line_checks": 200,
             "method_issued_stops_completed": 30,
             "operator_script_stops_completed": 300, "stops_with_live_operator_instance": 150,
-            "operator_instances_finalised_checked": 150, "stops_with_live_forced_instance": 20}
+            "operator_instances_finalised_checked": 150, "stops_with_live_forced_instance": 20,
+            "stops_in_error_pause": 700, "restarts_in_error_pause": 700, "error_pause_ends_with_simulated_tag": 800,
+            "error_pause_ends_with_live_instance": 250, "stops_after_unpause_of_error_pause": 400,
+            "simulated_reports_checked": 20000, "snapshot_messages_checked": 8000,
+            "restart_next_run_simulation_checks": 10000,
+            **{"error_pause_ends_" + k: 100 for k in (
+                "sim_inconvertible_unit", "sim_unknown_unit", "sim_unit_on_unitless_tag", "sim_unit_on_categorical_tag",
+                "sim_unknown_tag", "sim_malformed", "uod_bad_arguments", "uod_exec_raises",
+                "engine_command_bad_arguments", "interpreter_command_bad_arguments", "unknown_instruction",
+                "bad_condition", "undefined_macro")}}
 
 UOD_NAMES = ("Short", "Long", "Long2", "Other", "Fail", "Set1", "SetPlain", "Drive1", "Set2", "Mode")
 
@@ -51,7 +74,8 @@ UOD_NAMES = ("Short", "Long", "Long2", "Other", "Fail", "Set1", "SetPlain", "Dri
 def plan(tier, seed):
     n = 128 if tier == "quick" else 3000
     shards = 16 if tier == "quick" else 50
-    return [{"seed": seed * 1000003 + i, "n": max(1, n // shards), "max_depth": 3 if tier == "quick" else 4}
+    return [{"seed": seed * 1000003 + i, "n": max(1, n // shards), "max_depth": 3 if tier == "quick" else 4,
+             "first_serial": i * max(1, n // shards)}
             for i in range(shards)]
 
 
@@ -118,6 +142,47 @@ def operator_scripts(rnd: random.Random, m, T: int, live_ticks: list) -> list[tu
     return out
 
 
+def failing_variants(rnd: random.Random, m, serial: int, n: int = 2) -> list[dict]:
+    """n variants of method m with one line that fails at run time, the kinds taken round-robin (serial) so that every
+    shard meets every kind; the failing line goes before a seeded instruction line (or to the end), half of the variants
+    get a valid Simulate and/or a long-running command right before it, a third a valid Simulate right after it."""
+    from opv.rigs import cmd_rig as CR
+    kinds = list(CR.FAIL_LINES)
+    n_lines = len([ln for ln in m["text"].split("\n") if ln.strip() and not ln.strip().startswith("#")])
+    out = []
+    for j in range(n):
+        kind = kinds[(serial * n + j) % len(kinds)]
+        new = [rnd.choice(CR.FAIL_LINES[kind])]
+        if rnd.random() < 0.5:
+            ctx = []
+            if rnd.random() < 0.7:
+                ctx.append(rnd.choice(CR.FAIL_CONTEXT_SIM))
+            if rnd.random() < 0.6 or not ctx:
+                ctx.append(rnd.choice(CR.FAIL_CONTEXT_CMD))
+            rnd.shuffle(ctx)
+            new = ctx + new
+        if rnd.random() < 0.33:
+            new.append(rnd.choice(CR.FAIL_CONTEXT_SIM))
+        pos = rnd.randint(1, n_lines)
+        out.append({**m, "text": CR.append_or_insert_lines(m["text"], pos, new), "fail_kind": kind, "uod": "sel"})
+    return out
+
+
+def error_tick(case) -> int | None:
+    """tick of the undisturbed run in which the engine reports its first error (None: not within 40 ticks)"""
+    from opv.rigs import engine_rig as R
+    from opv.rigs import cmd_rig as CR
+    rig = R.EngineRig(case["text"], long_n=case["long_n"], uod_factory=CR.select_tag_uod_factory(case["long_n"]))
+    try:
+        rig.start()
+        while rig.k < 40 and not rig.errors:
+            rig.hw.inputs["FT01"] = case["traj"][rig.k]
+            rig.tick()
+        return rig.errors[0][0] if rig.errors else None
+    finally:
+        rig.close()
+
+
 def _sample(rnd: random.Random, ticks, n: int) -> list[int]:
     ticks = list(ticks)
     return sorted(rnd.sample(ticks, n)) if len(ticks) > n else ticks
@@ -139,9 +204,12 @@ def check_case(case, res: Result):
     at = case.get("at")
     ops = case.get("ops") or []
     forced: set = set()
-    rig = R.EngineRig(case["text"], long_n=case["long_n"])
+    fail_kind = case.get("fail_kind")
+    rig = R.EngineRig(case["text"], long_n=case["long_n"],
+                      uod_factory=CR.select_tag_uod_factory(case["long_n"]) if case.get("uod") == "sel" else None)
     sl = CR.StopListener(rig)
     rq = CR.Requests(rig) if any(o[1] == "force" for o in ops) else None
+    unpaused_error_pause = [False]
     viol: list[tuple] = []
     nontrivial = False
     try:
@@ -154,6 +222,13 @@ def check_case(case, res: Result):
         while rig.k < limit:
             for op in ops:
                 if op[0] == rig.k:
+                    if op[1] == "ctl":
+                        # operator control command (Unpause of the error pause) through the real user entry point
+                        was = bool(rig.errors) and rig.e._runstate_paused
+                        ok = rig.user(op[2])
+                        res.count("operator_control_commands_accepted" if ok else "operator_control_commands_rejected")
+                        unpaused_error_pause[0] = unpaused_error_pause[0] or (ok and was and op[2] == "Unpause")
+                        continue
                     _apply_op(rig, rq, op, forced, res)
             if at is not None and rig.k == at:
                 pre = _pre_state(rig, CR.USER_IIDS, forced)
@@ -193,8 +268,21 @@ def check_case(case, res: Result):
             res.count("stops_with_simulated_tag")
         if pre["paused"] or pre["holding"]:
             res.count("stops_while_paused_or_holding")
-        if ops:
+        if any(o[1] in ("user", "force") for o in ops):
             res.count("operator_script_stops_completed")
+        if pre["error"]:
+            # the run had hit a failing line before the Stop/Restart began
+            res.count("stops_after_error")
+            if fail_kind:
+                res.count("error_pause_ends_" + fail_kind)
+            if pre["paused"] and not unpaused_error_pause[0]:
+                res.count("stops_in_error_pause" if kind == "Stop" else "restarts_in_error_pause")
+                if pre["simulated"]:
+                    res.count("error_pause_ends_with_simulated_tag")
+                if pre["live"]:
+                    res.count("error_pause_ends_with_live_instance")
+            if unpaused_error_pause[0]:
+                res.count("stops_after_unpause_of_error_pause")
         if pre["live_user"]:
             res.count("stops_with_live_operator_instance")
         if pre["live_forced"]:
@@ -262,8 +350,16 @@ def check_case(case, res: Result):
         if inst:
             # one violation per mechanism: instances leaked for different reasons must not hide each other's key
             by_mech: dict = {}
+            # command objects created for a request whose argument string could not be parsed: the request is dropped and
+            # marked failed before the command is initialised, the object stays in uod.command_instances for ever
+            unparsable = _never_started_failed_instances(ent["records"] if ent is not None else [])
             for c in rig.uod.command_instances.values():
-                by_mech.setdefault(mech_for([c.instance_id], "C10.uod_instance_held_after_stop"), []).append(c.name)
+                default = "C10.uod_instance_held_after_stop"
+                if c.instance_id in unparsable and c.instance_id not in per and not c.is_initialized() \
+                        and any(e[1] == "ValueError" and e[2] == f"Invalid arguments for command '{c.name}'"
+                                for e in rig.errors):
+                    default = "C10.uod_command_with_unparsable_arguments_keeps_instance_after_stop"
+                by_mech.setdefault(mech_for([c.instance_id], default), []).append(c.name)
             for mech, names in by_mech.items():
                 viol.append((mech, f"{kind} completed at tick {s} but uod.command_instances still holds {sorted(names)}"))
         res.count("operator_instances_finalised_checked", sum(1 for i in per if i in CR.USER_IIDS and per[i][0][1] == "init"))
@@ -311,9 +407,10 @@ def check_case(case, res: Result):
                     # command itself was never requested/initialised. Whether such a line counts as a "UOD command
                     # started in the run" is ambiguous -> counted, not judged.
                     res.count("unjudged_visited_but_never_requested_uod_line_left_open")
-        sim = sorted(t.name for t in rig.e.tags if t.simulated)
+        sim = _reported_simulated(rig, sl.builder, res)
         if sim:
-            viol.append(("C10.simulation_survives_stop", f"{kind} completed at tick {s} but tags {sim} are still simulated"))
+            viol.append(("C10.simulation_survives_stop", f"{kind} completed at tick {s} but tags are still reported as "
+                         f"simulated: {sim}"))
         if rig.tag("Run Id") is not None:
             viol.append(("C10.run_id_not_cleared", f"{kind} completed at tick {s} but Run Id is {rig.tag('Run Id')}"))
 
@@ -322,11 +419,21 @@ def check_case(case, res: Result):
             new_id = None
             first_started = None
             n_tr = len(R.TRACE)
+            sim_lines = _simulate_line_targets(case["text"])
             for _ in range(4):
                 rig.hw.inputs["FT01"] = case["traj"][min(rig.k, len(case["traj"]) - 1)]
                 rig.tick()
                 if new_id is None and rig.tag("Run Id") is not None:
                     new_id = rig.tag("Run Id")
+                # the next run starts cleanly: a tag is simulated only by a Simulate line visited in the new run
+                touched = {sim_lines[e[2]] for e in R.TRACE[n_tr:]
+                           if e[1] in ("started", "restarted", "completed", "failed") and e[5] is True and e[2] in sim_lines}
+                res.count("restart_next_run_simulation_checks")
+                left = {n: src for n, src in _reported_simulated(rig, None, res).items() if n not in touched}
+                if left and not any(v[0] == "C10.simulation_survives_restart_into_next_run" for v in viol):
+                    viol.append(("C10.simulation_survives_restart_into_next_run",
+                                 f"tick {rig.k} after the Restart stopped at tick {s}: tags reported as simulated although "
+                                 f"no Simulate line on them was visited in the new run: {left}"))
                 if first_started is None and any(e[1] == "started" and e[5] is True and e[2] == "L0"
                                                  for e in R.TRACE[n_tr:]):
                     first_started = rig.k
@@ -343,11 +450,15 @@ def check_case(case, res: Result):
             # a Stop stays stopped: nothing may execute afterwards
             n_log = len(rig.cmdlog)
             rig.tick(3)
+            sim3 = _reported_simulated(rig, sl.builder, res)
+            if sim3 and not sim:
+                viol.append(("C10.simulation_reappears_after_stop", f"3 ticks after the Stop completed at tick {s} tags are "
+                             f"reported as simulated: {sim3}"))
             late = [e for e in rig.cmdlog[n_log:] if e[1] == "exec"]
             if late:
                 viol.append((mech_for([e[3] for e in late], "C10.command_executes_after_stop"), f"UOD command {late[0][2]} ({late[0][3][:8]}) executes at tick {late[0][0]} after the Stop "
                              f"completed at tick {s}"))
-        key = (shape_hash(case["text"]), kind, at) + ((repr(ops),) if ops else ())
+        key = (shape_hash(case["text"]), kind, at) + ((repr(ops),) if ops else ()) + ((fail_kind,) if fail_kind else ())
         res.case(key if nontrivial else None,
                  sample={"method": case["text"], "kind": kind, "at": at, "stopped_tick": s, "live_at_request": pre["live"],
                          **({"ops": ops} if ops else {})})
@@ -368,9 +479,51 @@ def _pre_state(rig, user_iids=(), forced_iids=()):
             alive.append(ev[3])
         elif ev[1] == "fin" and ev[3] in alive:
             alive.remove(ev[3])
-    return {"live": len(alive), "simulated": any(t.simulated for t in rig.e.tags),
+    return {"live": len(alive), "simulated": any(t.simulated for t in rig.e.tags), "error": bool(rig.errors),
             "paused": rig.e._runstate_paused, "holding": rig.e._runstate_holding,
             "live_user": sum(1 for i in alive if i in user_iids), "live_forced": sum(1 for i in alive if i in forced_iids)}
+
+
+def _never_started_failed_instances(records: list[tuple]) -> set:
+    """instance ids of UOD command records whose states read created, failed and which never started"""
+    out = set()
+    for name, cls, node_id, insts in records:
+        if cls != "UodCommandNode":
+            continue
+        for iid, names in insts:
+            if names[:2] == ["created", "failed"] and "started" not in names and "uodcommandset" not in names:
+                out.add(iid)
+    return out
+
+
+def _reported_simulated(rig, builder, res: Result) -> dict:
+    """{tag name: [who reports it as simulated]} over the engine tag flags, the read-only tag values and (if a builder
+    is given) the tag snapshot message for the aggregator."""
+    out: dict[str, list] = {}
+    res.count("simulated_reports_checked")
+    for t in rig.e.tags:
+        if t.simulated:
+            out.setdefault(str(t.name), []).append("tag.simulated")
+        if t.as_readonly().simulated:
+            out.setdefault(str(t.name), []).append("as_readonly")
+    if builder is not None:
+        msg = builder.create_tag_updates_snapshot_msg()
+        res.count("snapshot_messages_checked")
+        res.count("snapshot_message_tags_checked", len(msg.tags))
+        for tv in msg.tags:
+            if tv.simulated:
+                out.setdefault(str(tv.name), []).append("tag snapshot message")
+    return dict(sorted(out.items()))
+
+
+def _simulate_line_targets(text: str) -> dict:
+    """{method line id: tag name} of the Simulate lines (ids as assigned by engine_rig.to_method)"""
+    out = {}
+    for i, ln in enumerate(text.split("\n")):
+        b = ln.strip()
+        if b.startswith("Simulate:") and "=" in b:
+            out[f"L{i}"] = b[len("Simulate:"):].split("=", 1)[0].strip()
+    return out
 
 
 def _apply_op(rig, rq, op, forced: set, res: Result):
@@ -435,6 +588,22 @@ def run_shard(spec):
         for t in range(1, T + 1):
             for kind in ("Stop", "Restart"):
                 check_case({**m, "kind": kind, "at": t}, res)
+        # failing-line stratum (own stream as well)
+        rnd_f = random.Random(spec["seed"] * 104729 + mi * 37 + 5)
+        for fc in failing_variants(rnd_f, m, spec.get("first_serial", 0) + mi):
+            E = error_tick(fc)
+            if E is None:
+                res.count("failing_line_not_reached_within_40_ticks")
+                continue
+            res.count("failing_line_variants_reaching_error_pause")
+            for t in range(max(1, E - 1), E + 7):
+                for kind in ("Stop", "Restart"):
+                    check_case({**fc, "kind": kind, "at": t}, res)
+            for _ in range(2):
+                u = E + rnd_f.randint(0, 4)
+                t = u + rnd_f.randint(0, 3)
+                for kind in ("Stop", "Restart"):
+                    check_case({**fc, "kind": kind, "at": t, "ops": [[u, "ctl", "Unpause"]]}, res)
         n_lines = len([ln for ln in m["text"].split("\n") if ln.strip() and not ln.strip().startswith("#")])
         for pos in range(1, n_lines):
             for kind in ("Stop", "Restart"):
